@@ -15,28 +15,7 @@ import vcheck as V
 
 TRANSLATE = os.path.join(V.VERIF, "translate")
 
-# KNOWN_FINDINGS.txt is a shared file this engine may not edit: until the integrator has copied the lines proposed in
-# notes/redgreen/PROPOSED_KNOWN_FINDINGS.txt into it, they are honoured from there (skipped once an id is present in the real file).
-_PROPOSED = os.path.join(V.VERIF, "notes", "redgreen", "PROPOSED_KNOWN_FINDINGS.txt")
-_orig_load_known = V.load_known
-
-
-def _load_known_with_proposed():
-    known, fixed = _orig_load_known()
-    have = set(k.get("id") for k in known)
-    if os.path.exists(_PROPOSED):
-        for line in open(_PROPOSED):
-            line = line.strip()
-            if line.startswith("known:"):
-                d = dict(kv.split("=", 1) for kv in line[6:].split() if "=" in kv and kv.split("=")[0] in ("property", "id", "match"))
-                if d.get("id") not in have and d.get("property") in ("C04", "C12", "C19"):
-                    d["text"] = line
-                    known.append(d)
-    return known, fixed
-
-
-if V.load_known is not _load_known_with_proposed and getattr(V.load_known, "__name__", "") != "_load_known_with_proposed":
-    V.load_known = _load_known_with_proposed
+# known findings are read from KNOWN_FINDINGS.txt only (vcheck.load_known)
 OBL = os.path.join(V.COQ, "obligations")
 L_BROKER = "eventlogger.Broker.lock"
 
